@@ -532,7 +532,7 @@ def populate(ds, rng, base_us):
     pos = base_us
     w, a, web = [], [], []
     for i in range(rng.randrange(4, 14)):
-        dur = rng.choice([0, 1, 5, 30, 60]) * 10**6
+        dur = rng.choice([0, 1, 5, 30, 60]) * 10**6 + rng.choice([0, 0, 0, 300, 999])    # some ends fall between two milliseconds
         w.append(dict(ts=pos, dur=dur, data={"app": rng.choice(apps), "title": rng.choice(titles)}))
         if rng.random() < 0.7:
             web.append(dict(ts=pos + 10**6, dur=max(0, dur - 2 * 10**6), data={"url": rng.choice(urls), "title": rng.choice(titles)}))
